@@ -34,9 +34,10 @@ class Violation(Exception):
 class Golden:
     """Client of the fresh-interpreter golden server (one per worker process)."""
 
-    def __init__(self):
+    def __init__(self, **envover):
         env = dict(os.environ)
         env["PYTHONPATH"] = R.VERIF + os.pathsep + env.get("PYTHONPATH", "")
+        env.update(envover)
         self.p = subprocess.Popen([sys.executable, "-m", "vlib.golden"], stdin=subprocess.PIPE, stdout=subprocess.PIPE,
                                   cwd=R.VERIF, env=env, text=True, bufsize=1)
         self.cache = {}
@@ -554,7 +555,35 @@ def _pair_sweep(job):
     return {"pairs": len(pairs), "fails": out}
 
 
-def pair_box(tier):
+HASH_SEEDS = ("1", "4242", "99991")
+
+
+def _env_sweep(job):
+    """The same config in fresh interpreters that differ only in process-level state a stream must
+    not depend on: the string-hash seed (order of sets / dicts keyed on str or enum members)."""
+    cfgs = job
+    g0 = Golden()
+    others = [(h, Golden(PYTHONHASHSEED=h)) for h in HASH_SEEDS]
+    out = []
+    try:
+        for cfg in cfgs:
+            want = g0.get(cfg)
+            for h, g in others:
+                got = g.get(cfg)
+                if got != want:
+                    i = next((j for j in range(min(len(got), len(want))) if got[j] != want[j]), min(len(got), len(want)))
+                    out.append({"cfg": cfg, "hashseed": h, "variant": C.variant(cfg),
+                                "detail": "%s: stream under PYTHONHASHSEED=%s differs from the stream under PYTHONHASHSEED=%s at action %d" % (
+                                    C.describe(cfg), h, os.environ.get("PYTHONHASHSEED", "<unset>"), i + 1)})
+                    break
+    finally:
+        g0.close()
+        for _, g in others:
+            g.close()
+    return {"n": len(cfgs), "fails": out}
+
+
+def pair_base(tier):
     N = 6 if tier == "quick" else 9
     base = []
     for n in range(2, N + 1):
@@ -581,6 +610,11 @@ def pair_box(tier):
         base.append({"cls": "PeriodicDiskRevolve", "n": n, "s": 2, "c8": [8, 8, 16, 16], "passes": 1})
         base.append({"cls": "Multistage", "n": n, "ram": 2, "disk": 2, "traj": "maximum", "passes": 1})
         base.append({"cls": "Mixed", "n": n, "s": 3, "storage": "RAM", "passes": 1})
+    return base
+
+
+def pair_box(tier):
+    base = pair_base(tier)
     pairs = []
     for A in base:
         for _, B in siblings(A):
@@ -590,6 +624,11 @@ def pair_box(tier):
 
 def check_witness(data, show=False):
     w = data["witness"]
+    if "hashseed" in w:
+        r = _env_sweep([w["cfg"]])
+        if show:
+            print("replaying %s under several PYTHONHASHSEED values" % C.describe(w["cfg"]))
+        return [((f["variant"], "hash-seed-dependent"), {"cfg": f["cfg"], "hashseed": f["hashseed"]}, f["detail"], "env") for f in r["fails"]]
     if show:
         for op in w["ops"]:
             print("  " + json.dumps(op))
@@ -634,6 +673,14 @@ def run(prop, args):
         for f in part["fails"]:
             rep.add_violation((f["variant"], f["pred"]), {"ops": f["ops"]}, f["detail"], kind="history")
     rep.evaluations += npairs
+    # interpreter-environment sweep: same config, different string-hash seeds
+    ebase = pair_base(tier) + [dict(c, passes=2) for c in pair_base("quick") if c["cls"] == "TwoLevel"]
+    eres = R.pmap(_env_sweep, R.chunks(ebase, max(1, len(ebase) // 16 + 1)), chunksize=1)
+    for part in eres:
+        rep.evaluations += part["n"]
+        for f in part["fails"]:
+            rep.add_violation((f["variant"], "hash-seed-dependent"), {"cfg": f["cfg"], "hashseed": f["hashseed"]}, f["detail"], kind="env")
+    rep.extra["hash_seed_sweep"] = {"configs": len(ebase), "PYTHONHASHSEED": ["0 (the run's own)"] + list(HASH_SEEDS)}
     for A, B in pairs:
         if (A["cls"] in SHARE_A or A["cls"] in SHARE_B):
             rep.nontrivial.add("pair:" + C.key(A) + "|" + C.key(B))
@@ -642,6 +689,10 @@ def run(prop, args):
     R.run_regress(rep, check_witness)
 
     def shrink(b, w):
+        if "hashseed" in w:
+            small = C.shrink(w["cfg"], lambda c: bool(_env_sweep([c])["fails"]))
+            f = _env_sweep([small])["fails"]
+            return ({"cfg": small, "hashseed": f[0]["hashseed"]}, f[0]["detail"]) if f else None
         g = Golden()      # one fresh-interpreter server for the whole minimisation
         try:
             ops = minimize_ops(w["ops"], b[1], golden_fn=g.get)
